@@ -403,11 +403,16 @@ Definition dump_value (e : endpoint) (next0 : N) (c : val) : ty * val * list N :
   let '(t2, v2) := select e t (rval r) in
   (t2, v2, rlog r).
 
-Definition dump_endpoint (fuel : nat) (e : endpoint) (next0 : N) (c : val) : json :=
+(* the serialized dump is passed through the JSON-level redaction once more (RedactDumpJSON in DumpJSON and in the
+   admin handler): it reaches what the typed copy cannot see - filter configs and every other opaque blob *)
+Definition dump_endpoint_with (scrub : bool) (fuel : nat) (e : endpoint) (next0 : N) (c : val) : json :=
   match e with
   | EBad => JObj [("error", JStr "internal error")]
-  | _ => let '(t, v, _) := dump_value e next0 c in encode cfg_structs fuel t v
+  | _ => let '(t, v, _) := dump_value e next0 c in
+         let j := encode cfg_structs fuel t v in
+         if scrub then blank_json_keys j else j
   end.
+Definition dump_endpoint := dump_endpoint_with src_dump_scrubs_output.
 Definition dump_log (e : endpoint) (next0 : N) (c : val) : list N :=
   let '(_, _, w) := dump_value e next0 c in w.
 
@@ -510,9 +515,35 @@ Definition tls_key_named_b (T : table) : bool :=
 Definition no_unknown_tls_types : bool :=
   match cfg_unknown_tls, cfg_unattributed_tls with [], [] => true | _, _ => false end.
 
+(* the opaque positions of the graph (cfg_blob_positions: filter configs, per-filter configs, health-check session
+   configs, extend-verify maps, sds configs, raw xDS resources, ...): the typed program has no rule for any of them.
+   They are accounted for by the output scrub, whatever their number; without it, only an empty list would do. *)
+Definition blob_positions_ok : bool :=
+  (src_dump_scrubs_output || match cfg_blob_positions with [] => true | _ => false end)%bool.
+
+(* json-tagged string fields anywhere in the repository whose name suggests a secret, as looked at one by one.
+   Only v2.TLSConfig.private_key is configuration that holds key material: the scrub (and the typed program) look for that
+   member name.  A field that is not in this list makes c20_covers false until it has been looked at. *)
+Definition reviewed_keylike : list (string * string * string) :=
+  [("pkg/config/v2#TLSConfig", "private_key", "key material: blanked by the typed program and by the scrub");
+   ("pkg/config/v2#HeaderHashPolicy", "key", "header name");
+   ("pkg/config/v2#HeaderValue", "key", "header name");
+   ("pkg/filter/stream/headertometadata#KVPair", "key", "metadata key name");
+   ("pkg/filter/network/tunnel#AgentBootstrapConfig", "credential_policy", "name of a registered credential getter");
+   ("pkg/filter/network/tunnel#ConnectionConfig", "credential_policy", "name of a registered credential getter");
+   ("pkg/filter/network/tunnel#ConnectionInitInfo", "credential_policy", "wire message, not configuration");
+   ("pkg/filter/network/tunnel#ConnectionInitInfo", "credential", "wire message filled at run time from the getter, not configuration");
+   ("pkg/networkextention/l7/stream/filter/metadata#MetaDataer", "meta_data_key", "metadata key name");
+   ("pkg/networkextention/l7/stream/filter/metadata/unit#UnitConfig", "unit_key", "metadata key name");
+   ("pkg/upstream/servicediscovery/dubbod#pubReq.Registry", "password", "body of a request to the dubbod HTTP API, not in the effective config");
+   ("pkg/upstream/servicediscovery/dubbod#subReq.Registry", "password", "body of a request to the dubbod HTTP API, not in the effective config")].
+Definition keylike_ok : bool :=
+  forallb (fun p => existsb (fun q => String.eqb (fst p) (fst (fst q)) && String.eqb (snd p) (snd (fst q)))%bool reviewed_keylike)
+          cfg_keylike_fields.
+
 Definition covers_all : bool :=
   (forallb covers_endpoint all_endpoint_kinds && endpoint_types_ok && tls_key_named_b cfg_structs
-   && no_unknown_tls_types && CfgTypes_translator_ok)%bool.
+   && no_unknown_tls_types && blob_positions_ok && keylike_ok && CfgTypes_translator_ok)%bool.
 
 (* ------------------------------------------------------------------------------------ witness values *)
 Definition zero_of (n : string) : val := zero_val cfg_structs 16 (TNamed n).
@@ -542,6 +573,17 @@ Definition w_conf : val :=
     ["Cluster"] (VRef 7 [("c1", w_cluster)]))
     ["ExtendConfigs"] (VRef 8 [("", w_ext)]).
 Definition w_next0 : N := 10%N.
+
+(* a listener whose stream filter configuration (map[string]interface{}) carries TLS material: directly as a member of
+   the map and nested in a blob *)
+Definition w_filter : val :=
+  VStruct [VStr "some_filter"; VNil;
+           VRef 11 [("private_key", VJson (JStr "KEY-FILTER-TOP"));
+                    ("upstream", VJson (JObj [("tls_context", JObj [("status", JBool true); ("private_key", JStr "KEY-FILTER-NESTED")])]))]].
+Definition w_listener_blob : val :=
+  set_in "v2.Listener" w_listener ["ListenerConfig"; "StreamFilters"] (VRef 12 [("", w_filter)]).
+Definition w_conf_blob : val := set_in cfg_root w_conf ["Listener"] (VRef 6 [("l1", w_listener_blob)]).
+Definition w_next0_blob : N := 20%N.
 
 (* the dump with an explicitly chosen redactor shape (m: how Servers/Listeners are treated; ext: extension configs handled) *)
 Definition dump_full_with (m : cmode) (ext : bool) (fuel : nat) (next0 : N) (c : val) : json * list N :=
@@ -575,30 +617,6 @@ Fixpoint list_eqb (a b : list string) : bool :=
 
 Definition leaked (l : list string) : list string := filter (fun s => negb (ok_secretb s)) l.
 
-(* the positions the model prunes are nil in the real state *)
-Definition pruned_are_nil (c : val) : bool :=
-  forallb (fun p => match vget cfg_structs root_ty c p with Some (_, VNil) => true | None => true | _ => false end) pruned_root.
-
-Definition c20_case_ok (k : c20_case) : bool :=
-  let c := taint cfg_structs root_ty (k_conf k) in
-  let raw := leaked (jsecrets (raw_endpoint 64 c)) in
-  (pruned_are_nil (k_conf k) && list_eqb (sort_set raw) (sort_set (k_raw_markers k))
-   && forallb (fun x =>
-                 match x with
-                 | (e, body_markers, live_written) =>
-                   let body := leaked (jsecrets (dump_endpoint 64 e (k_next0 k) c)) in
-                   let live_w := existsb (fun r => N.ltb r (k_next0 k)) (dump_log e (k_next0 k) c) in
-                   (list_eqb (sort_set body) (sort_set body_markers) && Bool.eqb live_w live_written)%bool
-                 end) (k_eps k))%bool.
-
-Fixpoint mismatches_from {A} (ok : A -> bool) (i : nat) (l : list A) : list nat :=
-  match l with
-  | [] => []
-  | x :: l' => if ok x then mismatches_from ok (S i) l' else i :: mismatches_from ok (S i) l'
-  end.
-Definition c20_mismatches (l : list c20_case) : list nat := mismatches_from c20_case_ok 0 l.
-
-(* ------------------------------------------------------------------ the JSON-level redactor, on its own *)
 (* every string found directly under a member named "private_key" (any case), at any depth *)
 Fixpoint key_strings (j : json) : list string :=
   match j with
@@ -614,6 +632,31 @@ Fixpoint key_strings (j : json) : list string :=
   | _ => []
   end.
 
+(* the positions the model prunes are nil in the real state *)
+Definition pruned_are_nil (c : val) : bool :=
+  forallb (fun p => match vget cfg_structs root_ty c p with Some (_, VNil) => true | None => true | _ => false end) pruned_root.
+
+Definition c20_case_ok (k : c20_case) : bool :=
+  let c := taint cfg_structs root_ty (k_conf k) in
+  let marks := fun j => leaked (jsecrets j ++ key_strings j)%list in
+  let raw := marks (raw_endpoint 64 c) in
+  (pruned_are_nil (k_conf k) && list_eqb (sort_set raw) (sort_set (k_raw_markers k))
+   && forallb (fun x =>
+                 match x with
+                 | (e, body_markers, live_written) =>
+                   let body := marks (dump_endpoint 64 e (k_next0 k) c) in
+                   let live_w := existsb (fun r => N.ltb r (k_next0 k)) (dump_log e (k_next0 k) c) in
+                   (list_eqb (sort_set body) (sort_set body_markers) && Bool.eqb live_w live_written)%bool
+                 end) (k_eps k))%bool.
+
+Fixpoint mismatches_from {A} (ok : A -> bool) (i : nat) (l : list A) : list nat :=
+  match l with
+  | [] => []
+  | x :: l' => if ok x then mismatches_from ok (S i) l' else i :: mismatches_from ok (S i) l'
+  end.
+Definition c20_mismatches (l : list c20_case) : list nat := mismatches_from c20_case_ok 0 l.
+
+(* ------------------------------------------------------------------ the JSON-level redactor, on its own *)
 (* b is a, except possibly for the strings directly under a "private_key" member *)
 Fixpoint same_but_keys (a b : json) {struct a} : Prop :=
   match a, b with
